@@ -8,7 +8,7 @@ import cfgs as C
 import fields as F
 import hist as H
 import props.cfgprops as P
-from core import Result, stable
+from core import Result, stable, guard
 
 RULE = ("(names) the whole settings matrix — schema env in {absent, True, 'NAME', False} at the root and at each of up to 3 nested levels x "
         "field env in the same four — on real schemas built top-down: the variable each field ends up bound to vs the Lean envName; "
@@ -310,9 +310,9 @@ def special_stream(ctx, res, n):
 
 def run(ctx, n_quick=120, n_thorough=4000):
     res = Result()
-    names_stream(ctx, res)
-    precedence_stream(ctx, res, ctx.n(n_quick, n_thorough))
-    special_stream(ctx, res, ctx.n(60, 1500))
+    guard(res, "C14", names_stream, ctx, res)
+    guard(res, "C14", precedence_stream, ctx, res, ctx.n(n_quick, n_thorough))
+    guard(res, "C14", special_stream, ctx, res, ctx.n(60, 1500))
     return res
 
 
